@@ -1,0 +1,8 @@
+// SPDX-License-Identifier: Apache-2.0
+//
+// Declares the `pickle_fuzzer_verif` cfg (verification hooks, off by default)
+// so that ordinary builds do not warn about an unexpected cfg name.
+fn main() {
+    println!("cargo::rustc-check-cfg=cfg(pickle_fuzzer_verif)");
+    println!("cargo::rerun-if-changed=build.rs");
+}
